@@ -1634,6 +1634,14 @@ class Interp:
             # reader loop: `for _ in range(n): <reads>; result.append(v)`
             start, stop, step = it.payload
             before = {n: (v, len(v.items)) for n, v in frame.locals.items() if isinstance(v, SList)}
+            # lists held in a field of a local object (`ti.bases = []; for ...: ti.bases.append(...)`)
+            owners = {}
+            for n, v in frame.locals.items():
+                if isinstance(v, SObj):
+                    for fn_, fv in v.fields.items():
+                        if isinstance(fv, SList):
+                            before[(n, fn_)] = (fv, len(fv.items))
+                            owners[(n, fn_)] = v
 
             def body():
                 self.assign(s.target, SInt(self.ctx.fresh("loop_ix", IntS)), frame)
@@ -1647,7 +1655,10 @@ class Interp:
             val = lst.items.pop()
             if lst.items:
                 raise Unsupported("lock-step reader loop appends to a non-empty list")
-            frame.locals[name] = cd.lift(coll, elem, val)
+            if isinstance(name, tuple):
+                owners[name].fields[name[1]] = cd.lift(coll, elem, val)
+            else:
+                frame.locals[name] = cd.lift(coll, elem, val)
             return
         if cd.buffers(frame, reading=False) and writes_buffer(s.body):
             return cd.writer_loop(s, frame, it)
